@@ -72,6 +72,13 @@ def make_states(tr):
                         stdin=rng.choice(["pty", "pty", "pty-other-uid", "pipe", "file", "closed"]),
                         env=env, host=rng.choice([None, None, "testhost", "upper", "nodot", "h" * 64, "x"]),
                         chain=rng.randrange(0, 8), strf=rng.sample(STRF, 2), sub=rng.randrange(1 << 30)))
+    for st in out:
+        # a third of the states live in a process tree of their own: its top process has lost its parent (re-parented to
+        # pid 1) and carries a name chosen here - that is the "root process" the rpname source documents
+        st["orphan"] = rng.random() < 0.33
+        st["rootname"] = rng.choice([b"rootproc", b"  two-lead", b"\ttabbed", b" x", b"in ner", b"trail  ", b"(paren)", b"a) R 1 (b", b"fifteen-bytes-xx",
+                                     b"Name:", b"PPid:\t1", b"1", b"-", b"r\xc3\xa9sum\xc3\xa9"])
+        st["errno"] = rng.choice([0, 0, 34, 22, 2, 4])
     return out
 
 
@@ -167,8 +174,15 @@ def script_fn(st, B, s):
         st["_primed"] = True
     # ancestors
     nchain = st["chain"] if st["chain"] else (1 if st["sub"] % 2 == 0 else 0)
-    if nchain:
+    if st["orphan"]:
+        s.raw("orphan")
+        names = [st["rootname"]] + [b"anc%d-%d" % (st["id"], j) for j in range(nchain)]
+        if nchain:
+            names.append(b"leafproc")
+        s.raw("chain " + ",".join(x.hex() for x in names))
+    elif nchain:
         s.raw("chain " + ",".join((b"anc%d-%d" % (st["id"], j)).hex() for j in range(nchain)) + "," + b"leafproc".hex())
+    s.raw("preerrno %d" % st["errno"])
     # environment
     env = env_for(st)
     if env is None:
@@ -382,6 +396,12 @@ def check_fn(st, evs, B):
         # still show the previous second for up to one tick after clock_gettime(CLOCK_REALTIME) rolled over: lower bound - 1
         bracket = (O["now_s"] - 1, en["now_s"])
         for name, got in zip(grp, vals):
+            if name == "rpname" and st.get("orphan"):
+                # the harness' own construction, checked against the oracle: the tree's top process carries the chosen name
+                if "rpname" in O and bytes.fromhex(O["rpname"]) == st["rootname"][:15]:
+                    B.count("rpname_own_tree:" + st["rootname"].decode("latin-1").replace("\t", "\\t"))
+                else:
+                    B.count("orphan_not_under_pid_1")
             exp = expected(name, O, st, bracket, B.version)
             if exp is None:
                 B.count("not_judged")
